@@ -34,7 +34,7 @@ func runC09(e *Env) {
 		e.Flow(func(c *flow.Ctx) { c.RuleCalendarParser(dp) })
 	}
 	if dp != nil {
-		newFn := e.P.Func("date", "New")
+		newFn := e.F("date", "New")
 		e.Flow(func(c *flow.Ctx) {
 			c.RuleCaptureToArgs("C09.comp", dp, func(f *ssa.Function) bool { return f == newFn }, []int64{1, 2, 3}, []string{"year", "month", "day"})
 		})
